@@ -410,17 +410,18 @@ class _Inliner:
                 if h is not None and isinstance(st, ast.Return):
                     r = self.body_of(h, call, stack, depth, mode="splice")
                     if r is not None and r[2] is None:
-                        out.extend(r[0] + r[1])
+                        out.extend(self.block(r[0], owner, stack, depth + 1) + r[1])
                         continue
                     r = None if r is None or r[2] is None else r
                     if r is not None:
                         st.value = r[2]
-                        out.extend(r[0] + r[1] + [st])
+                        out.extend(self.block(r[0], owner, stack, depth + 1) + r[1] + [st])
                         continue
                 elif h is not None:
                     r = self.body_of(h, call, stack, depth, mode="stmt" if kind == "stmt" else "value")
                     if r is not None:
                         prefix, body, ret_expr = r
+                        prefix = self.block(prefix, owner, stack, depth + 1)      # an argument may itself be a helper call
                         if kind == "stmt" and ret_expr is None:
                             out.extend(prefix + body)
                             continue
@@ -447,6 +448,7 @@ class _Inliner:
                     r = self.body_of(h, inner, stack, depth, mode="value")
                     if r is not None and r[2] is not None:
                         prefix, body, ret_expr = r
+                        prefix = self.block(prefix, owner, stack, depth + 1)
                         if isinstance(ret_expr, ast.Name) or (isinstance(ret_expr, ast.Attribute) and _simple_chain(ret_expr)
                                                               and not body and not prefix):
                             repl, bind = ret_expr, []
@@ -493,6 +495,42 @@ def _first_evaluated_call(st, field):
     return found
 
 
+def _guard_returns_as_expr(body):
+    """the value of a helper whose body is a run of `if <c>: return <E>` guards (one return each, no else) closed by `return <E>`,
+    as one conditional expression with the same evaluation order; None for any other body"""
+    if not body or not isinstance(body[-1], ast.Return) or body[-1].value is None or len(body) > 4:
+        return None
+    ex = _dc(body[-1].value)
+    for st in reversed(body[:-1]):
+        if not (isinstance(st, ast.If) and not st.orelse and len(st.body) == 1 and isinstance(st.body[0], ast.Return)
+                and st.body[0].value is not None):
+            return None
+        rv = st.body[0].value
+        if isinstance(rv, ast.Constant) and isinstance(rv.value, bool) and _is_boolean(ex):
+            # a boolean predicate: `if c: return False; return E` is `not c and E`, `if c: return True; return E` is `c or E`
+            if rv.value:
+                ex = ast.copy_location(ast.BoolOp(op=ast.Or(), values=[_dc(st.test), ex]), st)
+            else:
+                ex = ast.copy_location(ast.BoolOp(op=ast.And(), values=[ast.UnaryOp(op=ast.Not(), operand=_dc(st.test)), ex]), st)
+        else:
+            ex = ast.copy_location(ast.IfExp(test=_dc(st.test), body=_dc(rv), orelse=ex), st)
+    return ex
+
+
+def _is_boolean(e) -> bool:
+    if isinstance(e, ast.Compare):
+        return True
+    if isinstance(e, ast.Constant):
+        return isinstance(e.value, bool)
+    if isinstance(e, ast.UnaryOp) and isinstance(e.op, ast.Not):
+        return True
+    if isinstance(e, ast.BoolOp):
+        return all(_is_boolean(v) for v in e.values)
+    if isinstance(e, ast.Call) and isinstance(e.func, ast.Name) and e.func.id in ("isinstance", "bool", "callable", "hasattr", "any", "all"):
+        return True
+    return False
+
+
 class _ExprInline(ast.NodeTransformer):
     def __init__(self, inl: _Inliner, owner: Func, stack, depth):
         self.inl, self.owner, self.stack, self.depth = inl, owner, stack, depth
@@ -510,7 +548,11 @@ class _ExprInline(ast.NodeTransformer):
             return n
         body = _body_wo_doc(h.node)
         if len(body) != 1 or not isinstance(body[0], ast.Return) or body[0].value is None:
-            return n
+            # guard-return predicates:  if c1: return E1;  if c2: return E2;  return En     ==     E1 if c1 else (E2 if c2 else En)
+            ex = _guard_returns_as_expr(body)
+            if ex is None:
+                return n
+            body = [ast.copy_location(ast.Return(value=ex), body[0])]
         b = _bind(h, n, self.inl._tag(h))
         if b is None:
             return n
